@@ -41,7 +41,8 @@ func (c *Calcium) RemoveWorkload(ctx context.Context, IDs []string, force bool) 
 									ctx,
 									// if
 									func(ctx context.Context) error {
-										_, _, err = c.rmgr.SetNodeResourceUsage(ctx, node.Name, nil, nil, []resourcetypes.Resources{workload.Resources}, true, plugins.Decr)
+										// (a variable of its own: the nodes' goroutines run concurrently)
+										_, _, err := c.rmgr.SetNodeResourceUsage(ctx, node.Name, nil, nil, []resourcetypes.Resources{workload.Resources}, true, plugins.Decr)
 										return err
 									},
 									// then
@@ -56,7 +57,7 @@ func (c *Calcium) RemoveWorkload(ctx context.Context, IDs []string, force bool) 
 										if failedByCond {
 											return nil
 										}
-										_, _, err = c.rmgr.SetNodeResourceUsage(ctx, node.Name, nil, nil, []resourcetypes.Resources{workload.Resources}, true, plugins.Incr)
+										_, _, err := c.rmgr.SetNodeResourceUsage(ctx, node.Name, nil, nil, []resourcetypes.Resources{workload.Resources}, true, plugins.Incr)
 										return err
 									},
 									c.config.GlobalTimeout,
